@@ -54,6 +54,17 @@ def get_clean_filter_cmd(filter_attr):
         return None
 
 
+def filter_is_required(filter_attr):
+    """Whether git config marks the filter driver as required."""
+    try:
+        spec = check_output([
+            'git', 'config', '--get', '--bool', 'filter.%s.required' % filter_attr
+        ])
+        return spec.strip() == b'true'
+    except CalledProcessError:
+        return False
+
+
 def apply_possible_filter(git_path, path=None):
     """Apply any configured git filters to path.
 
@@ -83,11 +94,18 @@ def apply_possible_filter(git_path, path=None):
     # git replaces %f in the command by the name of the file being filtered
     filter_cmd = filter_cmd.replace('%f', quote(git_path))
     with f:
-        output = check_output(
-            filter_cmd,
-            stdin=f,
-            stderr=STDOUT, shell=True
-        ).decode('utf8', 'replace')
+        try:
+            output = check_output(
+                filter_cmd,
+                stdin=f,
+                stderr=STDOUT, shell=True
+            ).decode('utf8', 'replace')
+        except CalledProcessError:
+            # Like git: the content is used as it is if the filter fails,
+            # unless the filter is marked as required
+            if filter_is_required(filter_attr):
+                raise
+            return path
     buffer = NamedStringIO()
     buffer.name = path
     buffer.write(output)
